@@ -60,14 +60,14 @@ OpenCall ==
   /\ IF MetaFault(cfg)
      THEN /\ Act([op |-> "open", raises |-> TRUE, fds |-> {"unspecified"}])   \* outside the statement: not asserted
           /\ api' = "open_failed" /\ libfds' = Opened(cfg)
-     ELSE /\ Act([op |-> "open", raises |-> FALSE, fds |-> AfterMeta(cfg)])
+     ELSE /\ Act([op |-> "open", raises |-> FALSE, fds |-> Opened(cfg), atmost |-> TRUE])    \* while open: at most these
           /\ api' = "lazy" /\ libfds' = AfterMeta(cfg)
   /\ UNCHANGED <<cfg, callerClosed>>
 
 \* a read that needs the file, on the open object
 ReadData ==
   /\ CanAct /\ api = "lazy"
-  /\ Act([op |-> "read_data", raises |-> DataFault(cfg) \/ cfg.index = "indexonly", fds |-> libfds])
+  /\ Act([op |-> "read_data", raises |-> DataFault(cfg) \/ cfg.index = "indexonly", fds |-> Opened(cfg), atmost |-> TRUE])
   /\ UNCHANGED <<cfg, api, libfds, callerClosed>>
 
 \* close() or leaving the with-block; may be repeated
